@@ -222,6 +222,9 @@ func runC04(c *Ctx) {
 			switch c.P.CalleeName(cs.Common) {
 			case "(*nbio.poller).modWrite", "(*nbio.Conn).modWrite":
 				nMod++
+				if callee := ir.StaticCallee(cs.Common); callee != nil && c.flagGuardedArm(callee) {
+					bad = "the one-shot re-arm at " + c.Pos(cs.In) + " goes through " + c.P.FuncName(callee) + ", which registers only when the isWAdded flag is clear: the flag is already set whenever the queue is non-empty, while EPOLLONESHOT has disarmed the descriptor, so nothing is registered and no further event arrives"
+				}
 				if !fi.HasFact(cs.In, func(ft ir.Fact) bool { e, ok := c.queueTest(ft); return ok && !e }) {
 					bad = "read+write is re-armed off the queue-non-empty edge"
 				}
@@ -277,6 +280,10 @@ func runC04(c *Ctx) {
 						}
 						if !L.HeldClass(in, fConnMux) {
 							bad = "the arm step at " + c.Pos(in) + " does not hold Conn.mux"
+							continue
+						}
+						if callsFn(in, connArm) && c.flagGuardedArm(connArm) {
+							bad = "the arm step at " + c.Pos(in) + " goes through " + c.P.FuncName(connArm) + ", which registers only when the isWAdded flag is clear: a Write in the open callback has already set the flag (its EPOLL_CTL_MOD failed, the descriptor was not registered yet), so nothing is armed"
 							continue
 						}
 						if !fi.HasFact(in, func(ft ir.Fact) bool { e, ok := c.queueTest(ft); return ok && !e }) {
@@ -499,4 +506,23 @@ func c04Masks(c *Ctx) {
 		}
 		// the ET-without-ONESHOT MOD is a no-op: only sound because ADD registered EPOLLOUT (checked above)
 	}
+}
+
+// flagGuardedArm: every kernel registration (*poller).modWrite in f is behind a
+// test of the isWAdded flag, i.e. f trusts the flag to mirror the registration.
+func (c *Ctx) flagGuardedArm(f *ssa.Function) bool {
+	fi := c.P.Info(f)
+	sites := c.P.CallsNamed(f, "(*nbio.poller).modWrite")
+	if len(sites) == 0 {
+		return false
+	}
+	for _, cs := range sites {
+		if !fi.HasFact(cs.In, func(ft ir.Fact) bool {
+			k, _, ok := c.P.BoolFieldTest(ft.Cond, ft.Truth)
+			return ok && k == fConnIsWAdded
+		}) {
+			return false
+		}
+	}
+	return true
 }
